@@ -98,6 +98,7 @@ def build(S, tier, seed):
     S.verify(put.ForFile())
     S.lemma('put/lemma/rest-of-a-clean-path', put.lemma_rest_of_clean_path)
     S.lemma('put/lemma/joining-keeps-dotdot-out', put.lemma_join_keeps_dotdot_out)
+    S.verify(dates.MaybeParseDeletionDate())
     found = {'safe': set(), 'decoders': set()}
     orig_quote = S.interp.lib.lib_quote
 
